@@ -102,7 +102,7 @@ Definition class_of (s : store) (v : value) : addr :=
   | VClass a => match get_obj s a with Some (OClass _ m _ _) => m | _ => cc_type cc end
   | VInst a => match get_obj s a with Some (OInst c _) => c | _ => cc_object cc end
   | VClosure _ => cc_func cc
-  | VNative _ => cc_builtin cc
+  | VNative _ _ => cc_builtin cc
   | VBound _ => cc_method cc
   | VBoundNat _ => cc_builtin_method cc
   | VModule _ => cc_module cc
@@ -218,7 +218,7 @@ Fixpoint veq (fuel : nat) (s : store) (a b : value) {struct fuel} : option bool 
     | VClass x, VClass y => Some (Pos.eqb x y)
     | VInst x, VInst y => Some (Pos.eqb x y)
     | VClosure x, VClosure y => Some (Pos.eqb x y)
-    | VNative x, VNative y => Some (native_eqb x y)
+    | VNative x o1, VNative y o2 => Some (native_eqb x y && Pos.eqb o1 o2)
     | VBound x, VBound y => Some (Pos.eqb x y)
     | VBoundNat _, VBoundNat _ => Some false          (* no arm in PartialEq *)
     | VModule x, VModule y => Some (Pos.eqb x y)
@@ -320,7 +320,7 @@ Fixpoint display (fuel : nat) (s : store) (lock : list addr) (v : value) {struct
         end
       | _ => Some (B "<fn ?>")
       end
-    | VNative n => Some (B "<built-in fn " ++ native_name n ++ B ">")
+    | VNative n _ => Some (B "<built-in fn " ++ native_name n ++ B ">")
     | VBound a =>
       match get_obj s a with
       | Some (OBound recv cl) =>
